@@ -58,6 +58,14 @@ func StoreBase(addr ssa.Value) (kind string, base ssa.Value) {
 				return "param", x
 			}
 			return "fresh-or-unknown", x
+		case *ssa.Index:
+			// an element of a local table of pointers (e.g. [8]*uint8{&cpu.BC.Hi, ...}[i])
+			if u, ok := x.X.(*ssa.UnOp); ok {
+				if al, ok := u.X.(*ssa.Alloc); ok && tableOfParamPointers(al) {
+					return "param", x
+				}
+			}
+			return "fresh-or-unknown", x
 		case *ssa.MakeMap, *ssa.MakeSlice, *ssa.Slice, *ssa.Extract:
 			return "fresh-or-unknown", x
 		default:
@@ -184,4 +192,34 @@ func returnsParamRooted(fn *ssa.Function, depth int) bool {
 		}
 	}
 	return found
+}
+
+// tableOfParamPointers: every store into the local array stores nil or a
+// pointer rooted in a parameter.
+func tableOfParamPointers(al *ssa.Alloc) bool {
+	refs := al.Referrers()
+	if refs == nil {
+		return false
+	}
+	n := 0
+	for _, r := range *refs {
+		ia, ok := r.(*ssa.IndexAddr)
+		if !ok {
+			continue
+		}
+		for _, r2 := range *ia.Referrers() {
+			s, ok := r2.(*ssa.Store)
+			if !ok || s.Addr != ssa.Value(ia) {
+				continue
+			}
+			n++
+			if c, ok := s.Val.(*ssa.Const); ok && c.Value == nil {
+				continue
+			}
+			if k, _ := StoreBase(s.Val); k != "param" {
+				return false
+			}
+		}
+	}
+	return n > 0
 }
